@@ -135,7 +135,8 @@ def run_task(task):
         elif kind == 'lin-es':
             counter['transitions'] += linearity(lambda: ExponentialSmoothingTracker(alpha=arg), L, ALPHA_A,
                                                 f"ExponentialSmoothingTracker(alpha={arg})")
-    except Violation as v:
+    except Exception as e:
+        v = e if isinstance(e, Violation) else choice.library_exception(e, f'in task {kind}')
         viol.append((v.key, v.what, {}, ()))
     counter['states'].discard(None)
     return dict(task=(kind, str(arg)[:80], L), transitions=counter['transitions'], states=len(counter['states']),
